@@ -111,3 +111,103 @@ prop(
           "judged verdict vector"),
     tiers={"quick": {"shards": NC, "budget": 40, "min_evaluations": 20000}, "thorough": {"shards": NC, "budget": 400}},
 )
+
+ENGINES.append({"name": "simjob", "path": "harness/simjob", "serves_properties": ["C04", "C06", "C07", "C09", "C10"],
+                "kind_free_text": "E1 virtual-time supervisor engine: the real start_job task on a paused current-thread tokio runtime with a "
+                                  "simulated child installed through the public spawn hook; invariant monitors + trace inclusion in an "
+                                  "executable reference model of the documented Job API"})
+
+_SIM_NOTE = ("the child process is simulated (process-wrap wrapper installed through the public spawn hook; one real /bin/true is spawned "
+             "and discarded per spawn because process-wrap spawns itself); virtual time is exact up to tokio's 1 ms timer wheel; "
+             "select! tie-breaking is seeded (tokio_unstable rng_seed) so a scenario replays; no claim for interleavings of a "
+             "multi-threaded runtime in this engine")
+
+prop(
+    "C04",
+    title="A job never has two live processes at once",
+    engine="simjob",
+    level="fault_enumeration",
+    level_text=("bounded-exhaustive control sequences (length <= 3 quick / 4 thorough over the 14-letter public alphabet) x child "
+                "behaviour classes x send patterns (burst, gaps g/2, g, 2g+1) x every single injected spawn / kill / signal / wait "
+                "failure position, then seeded random sequences of length 5-16; an online monitor inside the simulated-child layer "
+                "asserts at every spawn, under the same lock as the state it shadows, that no earlier child is spawned-and-unreaped "
+                "(a child dropped without being reaped counts); an offline recount over the event log cross-checks it"),
+    level_note=_SIM_NOTE,
+    technique="invariant monitor at the spawn hook over bounded-exhaustive + random control histories with injected faults (virtual time)",
+    rule=("scenario = (control sequence, send pattern, child behaviours, fault plan, ending); evaluations = scenarios executed; "
+          "non-trivial = the trace contains >=1 spawn and >=1 of {kill, signal, spawn failure}; distinct by the abstract trace "
+          "(event kinds in order, times and ids erased)"),
+    tiers={"quick": {"shards": NC, "budget": 25, "min_evaluations": 50000}, "thorough": {"shards": NC, "budget": 420}},
+)
+
+_MODEL = ("trace inclusion: the observed job-side event sequence (hook calls, spawns, signals, kills, reaps, error-handler calls, marker "
+          "closures with the job state they saw, task end) with its virtual instants, and the instant at which every ticket resolved, "
+          "must equal one trace of an executable reference model written from the Job documentation; the model branches only where "
+          "the documentation leaves the order open (child exit vs a ready control at the same instant, driver vs job at the same "
+          "instant, expired timer vs an urgent/high control arriving at that instant, draining after the last handle is dropped)")
+
+prop(
+    "C06",
+    title="Graceful stop: signal first, no kill before the grace period, kill at expiry",
+    engine="simjob",
+    level="exploration",
+    level_text=("bounded-exhaustive graceful scenarios: {stop, restart, try-restart}_with_signal x grace {0, 1, 40 ms, 10 s} x signal "
+                "{TERM, INT, HUP, KILL, custom 17, invalid 0} x child reaction {never, 0, g/2, g-1, g, g+1, 2g+3 after the signal; "
+                "own exit before / after the deadline} x job state {running, never started, finished} x controls queued behind at "
+                "every priority (same burst or g/2 later, including a second graceful stop and a start), then random histories. " + _MODEL +
+                ". Reported for this property: divergences in signals, kills, reaps, spawn counts and marker order"),
+    level_note=_SIM_NOTE,
+    technique="online reference-model monitor (trace inclusion) in exact virtual time",
+    rule=("evaluations = scenarios; non-trivial = trace with >=1 spawn and >=1 of {kill, signal, spawn failure}; distinct by abstract trace"),
+    tiers={"quick": {"shards": NC, "budget": 25, "min_evaluations": 20000}, "thorough": {"shards": NC, "budget": 420}},
+)
+
+prop(
+    "C07",
+    title="Every control completes and every ticket resolves",
+    engine="simjob",
+    level="fault_enumeration",
+    level_text=("the C04 enumeration (sequences x behaviours x send patterns x single spawn / kill / signal faults) crossed with waiter "
+                "topologies {one task per ticket, 2-4 tasks on clones of every ticket, one sequential waiter (at most one task waiting "
+                "per job), waiters created late} and job endings {delete, delete_now, last handle dropped, none} after every sequence. "
+                "Each ticket clone is awaited by its own task that records the virtual instant of completion. Oracles: completion "
+                "instant equals the reference model's (for a graceful stop: min(child exit, grace expiry)); when the job task ends "
+                "every outstanding waiter completes at that instant; the task ends without panicking; never-resolving is exact in "
+                "virtual time (awaited 10^4 x the longest timer)"),
+    level_note=_SIM_NOTE,
+    technique="offline checker over recorded ticket-completion events against a reference model, with fault injection at the child interface",
+    rule=("evaluations = scenarios; non-trivial = trace with >=1 spawn and >=1 of {kill, signal, spawn failure}; distinct by abstract trace"),
+    tiers={"quick": {"shards": NC, "budget": 25, "min_evaluations": 20000}, "thorough": {"shards": NC, "budget": 420}},
+)
+
+prop(
+    "C09",
+    title="Job lifecycle follows the documented state machine",
+    engine="simjob",
+    level="exploration",
+    level_text=("bounded-exhaustive control sequences (length <= 3 quick / 4 thorough) x child behaviour classes x send patterns x "
+                "spawn-failure positions, then random longer histories. " + _MODEL + ". Named clauses fall out of the model: start is a "
+                "no-op while running, stop while not; restart leaves a fresh process; try-restart never starts an idle job; to_wait "
+                "resolves at once when nothing runs; the spawn hook runs once before each spawn and its environment change is seen "
+                "by that spawn; run/run_async closures see (current, previous) state as documented"),
+    level_note=_SIM_NOTE,
+    technique="online reference-model monitor (trace inclusion against an executable model of the documented API) in virtual time",
+    rule=("evaluations = scenarios; non-trivial = trace with >=1 spawn and >=1 of {kill, signal, spawn failure}; distinct by abstract trace"),
+    tiers={"quick": {"shards": NC, "budget": 25, "min_evaluations": 20000}, "thorough": {"shards": NC, "budget": 420}},
+)
+
+prop(
+    "C10",
+    title="Controls run in send order within a priority; urgent before high before normal",
+    engine="simjob",
+    level="exploration",
+    level_text=("every mix of up to 4 (quick) / 5 (thorough) controls over {normal / high / urgent markers (hook H2), to_wait, start, stop} "
+                "delivered (a) as a burst to an idle job task, (b) enqueued behind a gate (run_async blocked on a harness latch) and "
+                "released, (c) while a grace timer is armed, (d) followed by delete_now behind a gate; then random histories. Markers "
+                "carry unique ids. Oracles: per priority FIFO and exactly-once (log invariants), ticket-implies-ran, and the full "
+                "cross-priority order by trace inclusion in the reference model"),
+    level_note=_SIM_NOTE,
+    technique="offline ordering checker over uniquely identified marker events + reference-model trace inclusion (virtual time)",
+    rule=("evaluations = scenarios; non-trivial = trace with >=1 spawn and >=1 of {kill, signal, spawn failure}; distinct by abstract trace"),
+    tiers={"quick": {"shards": NC, "budget": 25, "min_evaluations": 20000}, "thorough": {"shards": NC, "budget": 420}},
+)
